@@ -51,6 +51,9 @@ func (c *faultCase) Line() string {
 	if c.kills() || c.panics() {
 		return ""
 	}
+	if c.Fault == "cancel" && c.outcome().Result != "ok" {
+		return "" // a run that gives up is outside the model (which, like the unchanged code, goes on); the oracle judges it
+	}
 	c.pipeCase.out = c.outcome()
 	return c.pipeCase.Line()
 }
@@ -117,6 +120,19 @@ func (c *faultCase) Oracle(out string) string {
 		// the injected fault was not reached (type disabled, package cached, …): judged as an ordinary run
 		return c.S.judge(o, "calls files other sum")
 	}
+	if c.Fault == "cancel" && !strings.HasPrefix(o.Result, "harness:") && o.Result != "loaderr" && !strings.HasPrefix(o.Result, "panic:") {
+		// nothing failed but the caller gave up: whether Execute goes on (the unchanged code) or returns an error is
+		// not the property's business — a run that returns an error has not executed every package and must leave
+		// gengo.sum as it was
+		prev := "none"
+		if o.HasPrev {
+			prev = hx(o.PrevSum)
+		}
+		if o.Sum != prev {
+			return "the run gave up on a cancelled context, returned " + o.Result + " (" + o.ErrText + ") and rewrote gengo.sum"
+		}
+		return ""
+	}
 	return c.S.judge(o, "errors files other sum")
 }
 
@@ -124,7 +140,7 @@ func (c *faultCase) Shrinks() []Case {
 	var out []Case
 	for _, s := range c.pipeCase.Shrinks() {
 		pc := s.(*pipeCase)
-		if _, ok := pc.S.Reacts[c.At]; !ok && c.Fault != "kill" {
+		if _, ok := pc.S.Reacts[c.At]; !ok && c.Fault != "kill" && c.Fault != "cancel" {
 			continue
 		}
 		out = append(out, &faultCase{pipeCase: pipeCase{S: pc.S, Clauses: c.Clauses}, Fault: c.Fault, At: c.At})
@@ -193,6 +209,17 @@ func faultVariants(base PScn, yield func(*faultCase)) {
 					if f.fault == "kill" {
 						n.Kill = key
 					} else {
+						n.Reacts[key] = f.code
+					}
+					yield(&faultCase{pipeCase: pipeCase{S: n, Clauses: "errors files other sum"}, Fault: f.fault, At: key})
+				}
+				// the caller gives up (its context is cancelled) inside this call: alone — the unchanged code goes on as if
+				// nothing had happened, and whatever a run does about it, one that fails must fail like any other —, and
+				// together with an error of the same call or a syntax error in what it rendered
+				for _, f := range []struct{ fault, code string }{{"cancel", ""}, {"cancel-error", "fv-"}, {"cancel-syntax", "ox-"}} {
+					n := cloneScn(base)
+					n.Cancel = key
+					if f.code != "" {
 						n.Reacts[key] = f.code
 					}
 					yield(&faultCase{pipeCase: pipeCase{S: n, Clauses: "errors files other sum"}, Fault: f.fault, At: key})
